@@ -148,9 +148,13 @@ def earlier_for(variant, pseed):
     return cands[(pseed // 4) % len(cands)]
 
 
-def run_request(variant, pseed, fault=None, cseed=0, keep=False, dcfg_override=None):
+def run_request(variant, pseed, fault=None, cseed=0, keep=False, dcfg_override=None, start_locked=False):
     """fault: None or (exchange index relative to the request, kind)."""
     req, exp, v1, dcfg = build_request(variant, pseed, cseed)
+    if start_locked:
+        # the manager finds the device locked in the bootloader and unlocks it with its PIN
+        dcfg.update({"mode": L.MODE_BOOTLOADER, "pin": b"1234567a", "onboarded": True, "retries": 3,
+                     "post_exit_ui": {"mode": L.MODE_SIGNER, "delay": 0.2, "silence": "read_err"}})
     for k_, v_ in (dcfg_override or {}).items():
         dcfg[k_] = dict(dcfg.get(k_) or {}, **v_)
     if variant == "advanceBlockchain" and exp is not None:
